@@ -73,8 +73,14 @@ def plan(tier, seed):
     return {"nshards": 16, "params": {"soft_s": 300 if quick else 1200, "nprograms": 10 if quick else 110, "ninputs": 4 if quick else 8}, "hard_timeout_s": 700 if quick else 3400}
 
 
+def _templates(rng):
+    from ..ctemplates import any_ctemplate
+
+    return any_ctemplate(rng)
+
+
 def shard(ctx):
-    run_cstream(ctx, knobs, on_result, ninputs=ctx.params["ninputs"], op_weights=weights(), sched_steps=(0, 1, 3, 5), only_exact=True)
+    run_cstream(ctx, knobs, on_result, ninputs=ctx.params["ninputs"], op_weights=weights(), sched_steps=(0, 1, 3, 5), only_exact=True, templates=_templates, template_prob=0.4)
 
 
 def finish(agg, tier):
